@@ -25,6 +25,15 @@ var VerifDir = func() string {
 	return "/verif"
 }()
 
+// RepoDir is the root of the repository tree the checker was built from (source paths in stack
+// traces and race reports start with it).
+var RepoDir = func() string {
+	if d := os.Getenv("REPO_DIR"); d != "" {
+		return strings.TrimRight(d, "/")
+	}
+	return "/repo"
+}()
+
 // Violation is one failing case.  Symptom is an enum chosen by the invariant that failed, Key is
 // a canonical rendering of the (minimal) counterexample, used for de-duplication and for the
 // narrow known-finding matchers.  Replay is what gets written to the replay file.
